@@ -435,7 +435,7 @@ fn main() {
             let exe = std::env::current_exe().expect("own path");
             let cfgs = configs(&id, tier == "thorough");
             let t0 = std::time::Instant::now();
-            let scratch = std::env::temp_dir().join(format!("hv-loom-{}", std::process::id()));
+            let scratch = std::path::PathBuf::from(std::env::var("HV_SCRATCH").unwrap_or_else(|_| "/verif/.target".into())).join(format!("loom-scratch-{}", std::process::id()));
             let _ = std::fs::create_dir_all(&scratch);
             // children in parallel, results kept in configuration order
             let results: Vec<Value> = {
@@ -453,7 +453,23 @@ fn main() {
                         .map(|ch| {
                             let exe = exe.clone();
                             let scratch = scratch.clone();
-                            s.spawn(move || ch.into_iter().map(|(i, c)| (i, run_child(&exe, &c, Some(&scratch.join(format!("{}.ckpt", c.to_s().replace(':', "_"))))))).collect::<Vec<_>>())
+                            s.spawn(move || {
+                                ch.into_iter()
+                                    .map(|(i, c)| {
+                                        // first pass without checkpointing (no file I/O per schedule); a failing configuration
+                                        // is explored again with a checkpoint after every schedule, which leaves the failing
+                                        // schedule on disk as the replay artefact
+                                        let mut r = run_child(&exe, &c, None);
+                                        if r.get("failed").is_some() {
+                                            let again = run_child(&exe, &c, Some(&scratch.join(format!("{}.ckpt", c.to_s().replace(':', "_")))));
+                                            if again.get("failed").is_none() {
+                                                r = json!({"config": c.to_s(), "machinery_error": "a failing configuration did not fail when re-explored (nondeterminism)"});
+                                            }
+                                        }
+                                        (i, r)
+                                    })
+                                    .collect::<Vec<_>>()
+                            })
                         })
                         .collect();
                     for h in hs {
